@@ -1731,8 +1731,8 @@ def tmle_calculator(y, ystar1, ystar0, ystara, h1w, h0w, haw, splits,
             h1ws = h1w[splits == s]
             h0ws = h0w[splits == s]
 
-            ic = ((1-np.mean(ystar1s))/np.mean(ystar1s)*(h1ws*(ys - ystaras) + ystar1s) -
-                  (1-np.mean(ystar0s))/np.mean(ystar0s)*(-1*h0ws*(ys - ystaras) + ystar0s))
+            ic = (1 / (np.mean(ystar1s) * (1 - np.mean(ystar1s))) * (h1ws*(ys - ystaras) + ystar1s) -
+                  1 / (np.mean(ystar0s) * (1 - np.mean(ystar0s))) * (-1*h0ws*(ys - ystaras) + ystar0s))
             variance.append(np.var(ic, ddof=1))
 
         return estimate, (np.mean(variance) / y.shape[0])
